@@ -1,12 +1,15 @@
 (* C05 — Calling a mixin is equivalent to inlining its body with parameters bound.
-   PARTIAL: proved here: the binding discipline (positional, defaults, arity), a definition is silent, an unknown
-   call adds nothing, a call IS the evaluation of the callee's body at the call site (under the caller's selector,
-   with the parameters bound); the whole-program statement "evaluation = evaluation of the inlined program" is
-   decided by the correspondence against the reference semantics Spec/Sem.v (sem_call: inlining with the parameters
-   in a frame of their own).  Known finding F27 (a nested call rebinds @arguments for the rest of the body). *)
+   Proved here: the binding discipline (positional, defaults, arity), a definition is silent, an unknown call adds
+   nothing, a call IS the evaluation of the callee's body at the call site (under the caller's selector, with the
+   parameters bound), and C05_call_is_inlining: that evaluation yields what the body yields after parameters and
+   @arguments have been REPLACED by the arguments in its text (binding = substitution), for bodies of declarations,
+   definitions and nested rules to any depth.  PARTIAL: bodies holding nested mixin calls, defaults and guarded
+   recursion are decided by the correspondence against the reference semantics Spec/Sem.v (sem_call: inlining with
+   the parameters in a frame of their own) and by the hand-inlining oracle on the real compiler.  Known finding F27
+   (a nested call rebinds @arguments for the rest of the body). *)
 From Coq Require Import String.
 From Coq Require Import List Ascii Bool NArith.
-Require Import Model.Text Model.Ast Model.Scope Model.Ident Model.Fmt Model.Eval Proofs.MixinProofs.
+Require Import Model.Text Model.Ast Model.Scope Model.Ident Model.Fmt Model.Eval Proofs.EvalProofs Proofs.ScopeProofs Proofs.VarProofs Proofs.MixinProofs Proofs.InlineProofs.
 Import ListNotations.
 
 Theorem C05_bind :
@@ -47,6 +50,69 @@ Theorem C05_unknown_call_adds_nothing :
     call_mixin defs (S fuel) name args parent sc = ROk ([], sc).
 Proof. exact unknown_call_adds_nothing. Qed.
 Print Assumptions C05_unknown_call_adds_nothing.
+
+(* ---- binding in the scope = substitution in the text ---- *)
+(* values: evaluating with the names bound to literal token lists gives what evaluating the substituted value gives *)
+Theorem C05_value_substitution :
+  forall b fuel sc1 sc2 ts r,
+    sim b sc1 sc2 -> scope_ok sc1 = true -> val_ok ts = true ->
+    eval_value fuel sc1 ts = ROk r -> eval_value fuel sc2 (subst_val b ts) = ROk r.
+Proof. exact subst_value. Qed.
+Print Assumptions C05_value_substitution.
+
+(* statements (declarations, definitions, nested rules / frames / definitions to any depth, no nested call, no redefinition
+   of a bound name): same output objects, and the two scopes stay related *)
+Theorem C05_statement_substitution :
+  forall b n, inl_ok b n -> forall callf parent sc1 sc2, sim b sc1 sc2 -> scope_ok sc1 = true ->
+    stmt_sim b (eval_node_g callf parent sc1 n) (eval_node_g callf parent sc2 (subst_node b n)).
+Proof. exact subst_node_sim. Qed.
+Print Assumptions C05_statement_substitution.
+
+(* THE CALL: whatever a call of the first applicable same-named definition yields is what its body yields, evaluated at the call
+   site in the CALLER's scope, after every parameter has been replaced by its argument and @arguments by the argument list.
+   Hypotheses = the property's own: one argument per parameter; hygiene (the body does not redefine a parameter; nothing visible
+   at the call site mentions a parameter name); PARTIAL: the body holds no nested mixin call (decided by the correspondence
+   against Spec/Sem.v and by the hand-inlining oracle on the real compiler). *)
+Theorem C05_call_is_inlining :
+  forall defs fuel pre d post name args parent sc os sc' zb,
+    defs = pre ++ d :: post ->
+    (forall x, In x pre -> str_eqb (m_name x) name = false) ->
+    str_eqb (m_name d) name = true -> m_body d <> [] ->
+    args <> [] ->
+    zip_binds (m_params d) args = Some zb ->
+    let b := ($"@arguments", arguments_strs args) :: rev zb in
+    Forall (inl_ok b) (m_body d) ->
+    scope_ok sc = true -> closed_under b sc ->
+    call_mixin defs (S fuel) name args parent sc = ROk (os, sc') ->
+    exists sc'', eval_body (call_mixin defs fuel) parent sc (map (subst_node b) (m_body d)) = ROk (os, sc'').
+Proof. exact call_is_inlining. Qed.
+Print Assumptions C05_call_is_inlining.
+
+(* non-vacuity: a two-parameter mixin with a nested rule, a local definition and @arguments, called in a scope that defines other
+   variables; the hypotheses hold and both sides yield the objects written here *)
+Definition c05_def : mixin_def :=
+  MkMixin $".m" [($"@a", None); ($"@b", None)]
+    [NProp $"width" [VVar $"@a"] false;
+     NVar $"@w" [VVar $"@b"; VT $" "; VVar $"@g"];
+     NBlock [$"&"; $":"; $"hover"] [NProp $"margin" [VVar $"@w"; VT $" "; VCall $"f" [VVar $"@a"]] false];
+     NProp $"border" [VVar $"@arguments"] false].
+Definition c05_scope : scope := [[($"@g", [VT $"solid"])]].
+Example C05_inlining_nonvacuous :
+  let args := [[$"1px"]; [$"2px"]] in
+  let zb := [($"@a", [$"1px"]); ($"@b", [$"2px"])] in
+  let b := ($"@arguments", arguments_strs args) :: rev zb in
+  zip_binds (m_params c05_def) args = Some zb /\ Forall (inl_ok b) (m_body c05_def) /\ closed_under b c05_scope /\
+  (exists os sc', call_mixin [c05_def] 3 $".m" args (Some [[$".x"]]) c05_scope = ROk (os, sc') /\
+     exists sc'', eval_body (call_mixin [c05_def] 2) (Some [[$".x"]]) c05_scope (map (subst_node b) (m_body c05_def)) = ROk (os, sc'') /\
+     os = [OProp $"width" [$"1px"] false; OVar;
+           OBlock (ONIdent false [[$".x"; $":"; $"hover"]]) [OProp $"margin" [$"2px"; $" "; $"solid"; $" "; $"f(1px)"] false] [];
+           OProp $"border" [$"1px"; $" "; $"2px"; $" "] false]).
+Proof.
+  cbv zeta. split; [reflexivity|]. split; [repeat constructor|]. split.
+  - intros x v H. unfold c05_scope in H. cbn [variables frame_lookup assoc] in H.
+    destruct (str_eqb x $"@g"); [injection H as <-; reflexivity|discriminate].
+  - eexists. eexists. split; [vm_compute; reflexivity|]. eexists. split; vm_compute; reflexivity.
+Qed.
 
 Example C05_example :
   compile_nodes (false, false, false, 1)
